@@ -95,5 +95,85 @@ def init_unit():
                 meta={'function': '%s.ArmV6.__init__' % A.__module__})
 
 
+def regs_init_unit():
+    """Registers.__init__ (with every register class's constructor): builds the register file of one instance from the
+    configuration only - no object other than the new instance is written, nothing mutable outside the instance and the
+    configuration is read, and no two fields of the new register file are the same mutable object (ArmV6.__init__ above uses
+    this constructor by contract)."""
+    m = registry.mods()
+    CF = m.configurations
+    Rg = m.registers.Registers
+
+    def symbolic(eng):
+        from . import machine as MC
+        real = MC.config_dict('PMSA', 1)            # the shipped configuration file (reset values included)
+        cfgs = eng.register(dict(real))
+        if isinstance(real.get('reset_values'), dict):
+            cfgs['reset_values'] = eng.register(dict(real['reset_values']))
+        single = eng.new_obj(CF.Configurations, {'configs': cfgs}, tag='configuration singleton (module level)')
+        eng.subst[id(CF.configurations)] = single
+        eng.foreign_objs = {id(single)}
+        eng.contracts = {}
+        inst = eng.new_obj(Rg, {}, tag='new register file')
+        if not eng.prefix:
+            eng.cover('creation of a register file is explored')
+        try:
+            eng.call(Rg.__init__, [inst])
+        except PyRaise as e:
+            eng.oblige('safe.host', 'Registers.__init__ raises %s' % e.exc.cls.__name__, False, detail=str(e.exc.attrs.get('args')))
+            if eng.foreign_writes or eng.foreign_reads:
+                eng.oblige('frame.own', 'Registers.__init__ touches no mutable state outside the new register file and the configuration', False,
+                           detail='; '.join(list(eng.foreign_writes[:3]) + sorted(eng.foreign_reads)[:3]))
+            return
+        eng.oblige('frame.own', 'Registers.__init__ writes no object outside the new register file', not eng.foreign_writes,
+                   detail='; '.join(eng.foreign_writes[:4]))
+        eng.oblige('frame.own', 'Registers.__init__ reads no mutable state outside the new register file and the configuration', not eng.foreign_reads,
+                   detail='; '.join(sorted(eng.foreign_reads)[:4]))
+        seen, shared = {}, []
+
+        def walk(o, path):
+            if isinstance(o, Obj) or isinstance(o, (list, dict)):
+                if id(o) in seen:
+                    shared.append('%s and %s' % (seen[id(o)], path))
+                    return
+                seen[id(o)] = path
+            if isinstance(o, Obj):
+                for k, v in o.attrs.items():
+                    walk(v, path + '.' + k)
+            elif isinstance(o, list):
+                for i, v in enumerate(o):
+                    walk(v, '%s[%d]' % (path, i))
+            elif isinstance(o, dict):
+                for k, v in o.items():
+                    walk(v, '%s[%s]' % (path, getattr(k, 'name', k)))
+        walk(inst, 'registers')
+        eng.oblige('frame.own', 'no two fields of the new register file are the same mutable object', not shared, detail='; '.join(shared[:4]))
+
+    def replay(inputs, ob):
+        import json as js
+        import os
+        import tempfile
+        m2 = registry.mods()
+        base = os.path.join(os.path.dirname(m2.arm_v6.__file__), 'arm_configurations.json')
+        cfg = js.load(open(base))
+        d = tempfile.mkdtemp(prefix='c20_')
+        try:
+            pa, pb = os.path.join(d, 'a.json'), os.path.join(d, 'b.json')
+            rv = dict(cfg.get('reset_values', {}))
+            rv['VBAR'] = '0x40'
+            js.dump(cfg, open(pa, 'w'))
+            js.dump(dict(cfg, reset_values=rv), open(pb, 'w'))
+            m2.arm_v6.ArmV6(pa)
+            b = m2.arm_v6.ArmV6(pb)
+            text = 'instance B created (after an instance with the stock configuration) from a configuration with reset value VBAR=0x40 has VBAR=%s' % hex(b.registers.vbar.value)
+            return b.registers.vbar.value != 0x40, text
+        finally:
+            import shutil
+            shutil.rmtree(d, ignore_errors=True)
+            m2.arm_v6.ArmV6()
+    return Unit('C20/fn:%s.Registers.__init__' % Rg.__module__, ['C20'], symbolic, replay, {'contracts': {}},
+                meta={'function': '%s.Registers.__init__' % Rg.__module__})
+
+
 def units(tier):
-    return [init_unit()] + step.units(tier)
+    return [init_unit(), regs_init_unit()] + step.units(tier)
